@@ -131,7 +131,7 @@ def match_known(known, klass, tags=()):
     return None
 
 
-def minimise(mod, v: Violation, budget=400):
+def minimise(mod, v: Violation, budget=400, wall_s=150):
     """Greedy delta debugging over the module's own shrink candidates; keeps a candidate only if the
     same violation class still fires when the candidate payload is replayed."""
     if not hasattr(mod, "shrink_candidates"):
@@ -139,11 +139,12 @@ def minimise(mod, v: Violation, budget=400):
     cur = v
     tried = 0
     progress = True
-    while progress and tried < budget:
+    t0 = time.time()
+    while progress and tried < budget and time.time() - t0 < wall_s:
         progress = False
         for cand in mod.shrink_candidates(cur.payload):
             tried += 1
-            if tried > budget:
+            if tried > budget or time.time() - t0 > wall_s:
                 break
             try:
                 got = mod.replay(cand)
@@ -223,23 +224,42 @@ def main_check(prop, tier, seed, runs_override=None, workers=None):
 
     exit_code = EXIT_OK
     reported = []
+    # A gross breakage can produce hundreds of violation classes.  Fully process (reproduce in-process, minimise, confirm the
+    # minimised replay in a fresh interpreter) one class per family (first two segments of the class key), at most MAX_FULL
+    # families and within a wall budget; every further class still gets its own VIOLATION line with an un-minimised replay file.
+    MAX_FULL, MAX_LINES, BUDGET_S = 6, 40, 900
+    t_min = time.time()
+    families = set()
+    new.sort(key=lambda kv: (len(kv[0]), kv[0]))
     for klass, vs in new:
-        # smallest payload first: cheaper minimisation
-        vs.sort(key=lambda vj: len(kernel.jdump(vj["payload"])))
+        vs.sort(key=lambda vj: len(kernel.jdump(vj["payload"])))   # smallest payload first: cheaper minimisation
         v = Violation.from_json(vs[0])
+        fam = "|".join(klass.split("|")[:2])
+        full = fam not in families and len(families) < MAX_FULL and time.time() - t_min < BUDGET_S
+        exit_code = EXIT_VIOLATION
+        if not full:
+            if len(reported) < MAX_LINES:
+                path = kernel.write_replay(prop, v.klass, v.detail, v.payload, seed,
+                                           {"occurrences_in_batch": len(vs), "tags": v.tags, "minimised": False})
+                print(f"VIOLATION property={prop} replay={path}")
+                print(f"  class={klass} (not minimised: same family as a minimised one or over the per-run budget)\n  detail={v.detail}")
+                reported.append({"class": klass, "replay": path, "occurrences": len(vs), "minimised": False})
+            continue
+        families.add(fam)
         got = mod.replay(v.payload)
         if not any(g.klass == klass for g in got):
             raise HarnessError(f"violation class {klass!r} did not reproduce in-process from its own payload; "
                                f"got {[g.klass for g in got]}")
         v = minimise(mod, v)
-        path = kernel.write_replay(prop, v.klass, v.detail, v.payload, seed, {"occurrences_in_batch": len(vs), "tags": v.tags})
+        path = kernel.write_replay(prop, v.klass, v.detail, v.payload, seed, {"occurrences_in_batch": len(vs), "tags": v.tags, "minimised": True})
         ok, outp = confirm_in_fresh_interpreter(prop, path, klass)
         if not ok:
             raise HarnessError(f"minimised replay {path} did not reproduce class {klass!r} in a fresh interpreter:\n{outp}")
         print(f"VIOLATION property={prop} replay={path}")
         print(f"  class={klass}\n  detail={v.detail}")
-        reported.append({"class": klass, "replay": path, "occurrences": len(vs)})
-        exit_code = EXIT_VIOLATION
+        reported.append({"class": klass, "replay": path, "occurrences": len(vs), "minimised": True})
+    if len(new) > len(reported):
+        print(f"[{prop}] {len(new) - len(reported)} further violation classes not listed individually")
 
     wall = time.time() - t0
     desc = mod.describe()
@@ -266,10 +286,13 @@ def main_check(prop, tier, seed, runs_override=None, workers=None):
     cov.update(desc.get("extra_coverage", {}))
     ev = {
         "property_id": prop, "tier": tier, "seed": seed, "level": mod.LEVEL, "coverage": cov,
-        "assumptions": desc.get("assumptions", []), "wall_s": round(wall, 2), "violations": len(reported),
+        "assumptions": desc.get("assumptions", []), "wall_s": round(wall, 2), "violations": len(new),
     }
-    os.makedirs(os.path.join(kernel.VERIF_DIR, "evidence"), exist_ok=True)
-    with open(os.path.join(kernel.VERIF_DIR, "evidence", f"{prop}.json"), "w") as f:
+    # evidence is only ever written from a run against /repo itself; sensitivity runs (VERIF_REPO=<scratch copy>) go elsewhere
+    evdir = os.environ.get("VERIF_EVIDENCE_DIR") or (os.path.join(kernel.VERIF_DIR, "evidence") if kernel.REPO == "/repo"
+                                                     else os.path.join(kernel.WORK, "evidence-scratch"))
+    os.makedirs(evdir, exist_ok=True)
+    with open(os.path.join(evdir, f"{prop}.json"), "w") as f:
         json.dump(ev, f, indent=1, sort_keys=True, default=repr)
     print(f"[{prop}] runs={len(records)} evaluations={cov['evaluations']} distinct_nontrivial={len(keys) + extra} "
           f"digests={len(digests)} known={len(known_hits)} new={len(reported)} wall={wall:.1f}s", flush=True)
